@@ -150,3 +150,91 @@ def whole_runs(run, pid, tier, seed, n_quick=36):
             else:
                 raise
     return len(good)
+
+
+# ------------------------------------------------------------------------------------------
+# API-level reuse: one Frontend object for several kernels, one kernel (its instruction forms) for
+# several graphs.  The CLI never does either, library users do; the reported numbers of a kernel
+# must not depend on it (C04 / C05 / C13 state them "for every kernel").
+# ------------------------------------------------------------------------------------------
+def _analyse(text, arch, mm, sem, parser, frontend=None, kernel=None, flag_deps=False):
+    from osaca.frontend import Frontend
+    from osaca.semantics import KernelDG
+
+    if kernel is None:
+        kernel = parser.parse_file(text)
+        sem.add_semantics(kernel)
+        sem.assign_optimal_throughput(kernel)
+        sem.assign_optimal_throughput(kernel)
+    dg = KernelDG(kernel, parser, mm, sem, -1, flag_deps)
+    fe = frontend or Frontend(arch=arch)
+    rep = fe.full_analysis(kernel, dg, ignore_unknown=True, arch_warning=False, length_warning=False, lcd_warning=False)
+    d = fe.full_analysis_dict(kernel, dg)
+    proj = {"cp": round(float(d["Summary"]["CriticalPath"]), 6), "lcd": round(float(d["Summary"]["LCD"]), 6),
+            "cpcells": [round(float(k["LatencyCP"]), 6) for k in d["Kernel"]],
+            "lcdcells": [round(float(k["LatencyLCD"]), 6) for k in d["Kernel"]],
+            "totals": [round(float(v), 6) for v in d["Summary"]["PortPressure"].values()],
+            "text": "\n".join(l for l in rep.split("\n") if not l.startswith(("Timestamp", "Analyzed file", "Open Source")))}
+    return proj, kernel, fe
+
+
+def api_reuse(run, pid, tier, seed):
+    from harness import deps_common as dc
+    from harness import synth, vocab
+
+    rnd = random.Random(seed * 17 + 3)
+    archs = env.QUICK_X86 + env.QUICK_ARM if tier == "quick" else env.X86_ARCHS + env.ARM_ARCHS
+    env.warm_models(archs)
+    n_checked = 0
+    for arch in archs:
+        mm, sem, parser = synth.load_arch(arch)
+        isa = mm.get_ISA()
+        n = rnd.randint(3, 6)
+        gp, vec = vocab.pools(isa, rnd, 2, 2)
+        texts = [dc.kernel_text([vocab.gen(isa, rnd, gp, vec) for _ in range(n)]) for _ in range(5 if tier == "quick" else 12)]
+        # hand-written families: the same lines carry cycles of different latency; a flag chain that is the
+        # critical path only with flag dependencies
+        if isa == "x86":
+            texts += ["\t%s %%rax, %%rbx\n\t%s %%rbx, %%rax\n" % ab for ab in (("imulq", "addq"), ("addq", "addq"), ("addq", "imulq"))]
+            texts += ["\taddq %rax, %rbx\n\tadcq %rcx, %rdx\n\tsbbq %rsi, %rdi\n\tadcq %r8, %r9\n\timulq %r10, %r11\n"]
+        else:
+            texts += ["\t%s x1, x0, x0\n\t%s x0, x1, x1\n" % ab for ab in (("mul", "add"), ("add", "add"), ("add", "mul"))]
+            texts += ["\tadds x1, x2, x3\n\tadcs x4, x5, x6\n\tadcs x7, x8, x9\n\tmul x10, x11, x12\n"]
+        fresh = [_analyse(t, arch, mm, sem, parser)[0] for t in texts]
+        # (a) one Frontend for all kernels
+        fe = None
+        for t, want in zip(texts, fresh):
+            try:
+                got, _, fe = _analyse(t, arch, mm, sem, parser, frontend=fe)
+            except Exception as e:  # noqa
+                if pid == "C13":
+                    run.fail("C13:api-reuse:exception:frontend", "%s: %s" % (type(e).__name__, e), {"text": t, "arch": arch})
+                break
+            n_checked += 1
+            _compare_reuse(run, pid, "frontend-reused", arch, t, want, got)
+        # (b) one parsed kernel for two graphs (with, then without flag dependencies)
+        for t, want in zip(texts, fresh):
+            try:
+                _, kernel, _ = _analyse(t, arch, mm, sem, parser, flag_deps=True)
+                got, _, _ = _analyse(t, arch, mm, sem, parser, kernel=kernel, flag_deps=False)
+            except Exception as e:  # noqa
+                if pid == "C13":
+                    run.fail("C13:api-reuse:exception:kernel", "%s: %s" % (type(e).__name__, e), {"text": t, "arch": arch})
+                break
+            n_checked += 1
+            _compare_reuse(run, pid, "kernel-reused", arch, t, want, got)
+    run.note("api_reuse_comparisons", n_checked)
+    run.add_eval(n_checked)
+
+
+def _compare_reuse(run, pid, how, arch, text, want, got):
+    diffs = [k for k in want if want[k] != got[k]]
+    if not diffs:
+        return
+    own = "C04" if any(k in ("cp", "cpcells") for k in diffs) else ("C05" if any(k in ("lcd", "lcdcells") for k in diffs) else "C13")
+    if own != pid and not (pid == "C13" and "text" in diffs and len(diffs) == 1):
+        return
+    k = [d for d in diffs if d != "text"] or diffs
+    run.fail("%s:api-reuse:%s:%s" % (pid, how, k[0]),
+             "%s on %s: %s differs from the analysis with fresh objects: %r vs %r" % (how, arch, k[0], str(got[k[0]])[:200], str(want[k[0]])[:200]),
+             {"text": text, "arch": arch, "how": how, "fresh": want, "reused": got})
